@@ -197,6 +197,16 @@ func (H) Run(t *testing.T, c *hx.Case) *hx.Outcome {
 		out.Inconclusive = "transaction does not parse"
 		return out
 	}
+	// the odd-numbered clients work on a second object of the same transaction: in the node the inputs of MANY
+	// transactions are verified at once, and whatever the digest code shares between objects (pre-built hashers,
+	// scratch buffers) is then used concurrently although each object's own lock is held
+	second := newGoTx(cfg)
+	obj := func(cl int) *btc.Tx {
+		if cl%2 == 1 && cfg.Clients > 1 {
+			return second
+		}
+		return shared
+	}
 	results := make([][]result, cfg.Clients)
 	res := simrt.Run(simrt.Config{Seed: cfg.SchedSeed, YieldP: cfg.YieldP, TimerP: cfg.TimerP, MaxConsec: cfg.MaxConsec, PCT: cfg.PCT, PCTSteps: cfg.PCTSteps, StepBudget: 5_000_000}, func() {
 		var wg simsync.WaitGroup
@@ -207,7 +217,7 @@ func (H) Run(t *testing.T, c *hx.Case) *hx.Outcome {
 				defer wg.Done()
 				for _, q := range reqs {
 					if q.C == cl {
-						results[cl] = append(results[cl], result{q, digest(shared, cfg, q)})
+						results[cl] = append(results[cl], result{q, digest(obj(cl), cfg, q)})
 					}
 				}
 			})
